@@ -22,9 +22,10 @@ def run(chk, replay):
     chk.assumptions = [sched.NOTES.get(PROP, "")]
     # the handlers run on the context the agent hands to Schedule: Agent.Run / Agent.signal are part of what C04 rests on
     common.lean_obligations(chk, "BdModel/Props/%s.lean" % PROP,
-                            {"Sched": sched.SCHED_TIE, "Graph": sched._ties_of("Graph"), "Agent": tie_names("Agent")},
+                            {"Sched": sched.SCHED_TIE, "Graph": sched._ties_of("Graph"), "Agent": tie_names("Agent"), "Load": sched.LOAD_TIES_FOR_SCHED},
                             extra_targets=["BdModel.Sched.Tables"])
     sched.run_stream(chk, PROP, replay)
+    sched.yaml_stream(chk, PROP, replay)
     if not replay:
         p_c05.real_stop_stream(chk, PROP)
         import p_c08
